@@ -7,8 +7,11 @@ cd /verif
 export GOFLAGS=-mod=mod GOPROXY=off GOSUMDB=off GOTOOLCHAIN=local
 wt=$(mktemp -d /tmp/benignwt.XXXX); rmdir $wt
 git -C /repo worktree add --detach $wt HEAD >/dev/null 2>&1 || exit 2
+# snapshot of the machinery (engine binary, contracts, lock files, known findings): the run is not disturbed by work
+# going on in /verif meanwhile
+snap=$(mktemp -d /tmp/vsnap.XXXX); mkdir -p $snap/bin; cp bin/hv $snap/bin/; cp -r contracts check obligations.lock.json locals.lock.json known_findings.json MANIFEST.json $snap/
 od=$(mktemp -d /tmp/benignout.XXXX)
-trap 'git -C /repo worktree remove --force '$wt' >/dev/null 2>&1; rm -rf '$od EXIT
+trap 'git -C /repo worktree remove --force '$wt' >/dev/null 2>&1; rm -rf '$od' '$snap EXIT
 out=seeded/benign/RESULTS.txt; [ -n "${1:-}" ] || : > $out
 ids=$(python3 -c "import json;print(' '.join(c['property_id'] for c in json.load(open('MANIFEST.json'))['checks']))")
 for p in seeded/benign/[bc]*.diff; do
@@ -17,7 +20,7 @@ for p in seeded/benign/[bc]*.diff; do
   git -C $wt checkout -q -- . ; git -C $wt clean -fdq
   if ! git -C $wt apply /verif/$p; then line="$n: patch does not apply"; else
     rm -f $od/*.res
-    echo ${2:-$ids} | tr ' ' '\n' | HV_REPO=$wt HV_OUT=$od xargs -P 3 -I{} sh -c './check {} quick > '$od'/{}.res 2>&1'
+    echo ${2:-$ids} | tr ' ' '\n' | HV_REPO=$wt HV_OUT=$od SNAP=$snap OD=$od xargs -P 3 -I{} sh -c '$SNAP/check {} quick > $OD/{}.res 2>&1'
     alarms=""
     for id in ${2:-$ids}; do
       v=$(grep "^  obligation" $od/$id.res | sed 's/^  obligation //' | cut -d' ' -f1-2 | tr '\n' ';')
